@@ -40,16 +40,9 @@ theorem bundle_control_recount (m : Model) (b b' : Bundle Vals) (h : bundleBuild
       bc.i "MICRValidTotalAmount" = (recountBundle b).micrValid ∧
       bc.i "BundleImagesCount" = (recountBundle b).images ∧
       bc.i "CreditTotalIndicator" = 0 := by
-  unfold bundleBuild at h
-  split at h
-  · cases h
-  · split at h
-    · cases h
-    · split at h
-      · cases h
-      · simp only [Except.ok.injEq] at h
-        subst h
-        refine ⟨rfl, rfl, rfl, _, rfl, ?_, ?_, ?_, ?_, ?_⟩ <;> cases b.control <;> simp [recountBundle]
+  have hb := bundleBuild_ok m b b' h
+  subst hb
+  refine ⟨rfl, rfl, rfl, _, rfl, ?_, ?_, ?_, ?_, ?_⟩ <;> cases hc : b.control <;> simp [recountBundle, bundleControlOf, hc]
 
 /-- **file control = recount**: cash letter count, record count, item count, amount -/
 theorem file_control_recount (m : Model) (f f' : File Vals) (h : fileCreate m f = .ok f') :
@@ -60,16 +53,9 @@ theorem file_control_recount (m : Model) (f f' : File Vals) (h : fileCreate m f 
     f'.control.i "FileTotalAmount" =
       sumInt ((f'.cashLetters.flatMap (fun cl => cl.bundles.flatMap (fun b => b.checks ++ b.returns))).map
         (fun i => i.detail.i "ItemAmount")) := by
-  unfold fileCreate at h
-  split at h
-  · cases h
-  · split at h
-    · cases h
-    · split at h
-      · cases h
-      · simp only [Except.ok.injEq] at h
-        subst h
-        refine ⟨?_, ?_, ?_, ?_⟩ <;> simp
+  obtain ⟨cls, _, hf⟩ := fileCreate_ok m f f' h
+  subst hf
+  refine ⟨?_, ?_, ?_, ?_⟩ <;> simp [fileControlOf]
 
 /-- **TotalRecordCount = records written**: after a successful File.Create, for every file whose
 image-view lists pass the writer's consistency check, the control's record count is exactly the
